@@ -1,4 +1,8 @@
-"""C03 - inverse() inverts and keeps particles/roles (gate classes): correspondence via the gate-tree driver + direct oracle."""
+"""C03 - inverse() inverts and keeps particles/roles: (1) gate classes - correspondence via the gate-tree driver + direct oracle;
+(2) whole circuits - `Circuit.inverse()` against the model's `circuitInverse` (reversed list of the gates' inverses, each on the wires
+of its gate; Lean: C03_circuit_inverse_embedded) through the circuit driver, + direct oracle Cinv @ C = 1."""
+import contextlib, io
+import numpy as np
 from gateprops import run_gate_check, oracle_c03
 
 PROP = "C03"
@@ -8,16 +12,148 @@ DRIVER = "drv_gate"
 LEVEL_TEXT = ("Lean 4 theorems over (a) the leaf closed forms regenerated from gates.py by the translator and (b) combinators for "
               "controlled / multiplexed / time-evolution / block-encoding / preparation gates over arbitrary index types, lifted to every "
               "gate tree by structural induction; composite assembly (kron/diag/block_diag/np.block, inverse(), is_hermitian delegation) "
-              "is tied to the code by exact differential execution of the Lean model on the same gate trees.")
+              "is tied to the code by exact differential execution of the Lean model on the same gate trees. Circuits: C.inverse() = reversed list "
+              "of gate inverses on the same wires, whose register matrix times that of C is 1 for every length and wire assignment "
+              "(C03_circuit_inverse_embedded, via multiplicativity of the wire embedding), tied by differential execution of Circuit.inverse().")
 ASSUMPTIONS = ["scipy.linalg.expm is modelled by NormedSpace.exp, sqrtm(1-H^2) by any Hermitian square root commuting with H, "
                "np.linalg.qr by any real orthogonal completion with first column +-x/|x| (each assumption is checked numerically on every sampled call)",
                "IEEE rounding/overflow is not modelled: theorems are over R/C, the numeric tie uses tolerance 1e-9 and |theta| <= 1e12",
                "leaf closed forms are tied by the translator (IR validated against the live class at 20-60 parameter points per class)"]
-RULE = ("every leaf class at boundary angles, ALL control patterns up to 3 (quick) / 4 (thorough) controls around non-symmetric targets, "
+RULE = ("circuits: seeded random gate lists of length 0..12 over 1..5 wires in 1..2 fields (overlapping/identical wire sets, idle wires, "
+        "occasionally a barrier, for which the code has no inverse) compared with the model's circuitInverse; gates: every leaf class at boundary angles, ALL control patterns up to 3 (quick) / 4 (thorough) controls around non-symmetric targets, "
         "multiplexers of width 1-3, and seeded random gate trees of depth <= 3/4; a case is non-trivial if the gate was constructed and its "
         "matrix computed; distinct = distinct case descriptors (seed + structure)")
 TECHNIQUE = "Lean 4 proof (structural induction over gate trees; leaf definitions regenerated from source) + exact differential check of composite assembly"
 
 
+ROUND_BITS = 80
+
+
+def _circuit_cases(tier, rng):
+    from props import c04
+    n = 1200 if tier == "thorough" else 220
+    for i in range(n):
+        nf = rng.choice([1, 1, 2])
+        nmax = 5 if (tier == "thorough" and i % 10 == 0) else 4
+        while True:
+            sizes = [rng.randint(1, 3) for _ in range(nf)]
+            if 1 <= sum(sizes) <= nmax:
+                break
+        ids = rng.sample([0, 2, 4], nf)
+        defs = [[fid, s, 2] for fid, s in zip(ids, sizes)]
+        order = list(ids)
+        rng.shuffle(order)
+        allp = [(fid, k) for fid, s, _ in defs for k in range(s)]
+        length = rng.choice([0, 1, 1, 2, 3, 4, 6, 9, 12]) if tier == "thorough" else rng.choice([0, 1, 2, 3, 4, 6, 8])
+        gates = []
+        for _ in range(length):
+            gd, m = c04.rand_gate_desc(rng, min(len(allp), 3))
+            gates.append({"gate": gd, "particles": [list(p) for p in rng.sample(allp, m)]})
+        yield {"op": "circuit.inverse", "field_defs": defs, "order": order, "gates": gates,
+               "barrier_at": (rng.randrange(length + 1) if rng.random() < 0.05 else None)}
+
+
+def _circuit_impl(case):
+    from props import c04
+    qib = c04._ctx["qib"]
+    fields, objs = c04.build_fields(case)
+    gobjs = [c04.build_gate(g, objs) for g in case["gates"]]
+    items = list(gobjs)
+    if case.get("barrier_at") is not None:
+        items.insert(case["barrier_at"], qib.operator.BarrierInstruction([]))
+    circ = qib.Circuit(items)
+    pid = lambda g: [[c04._fid_of(objs, p.field), int(p.index)] for p in g.particles()]
+    out = {"_gates": [{"particles": pid(g), "g": c04.dense_json(np.asarray(g.as_matrix())),
+                       "iparticles": pid(g.inverse()), "ginv": c04.dense_json(np.asarray(g.inverse().as_matrix()))} for g in gobjs]}
+    def mat(c):
+        try:
+            with contextlib.redirect_stdout(io.StringIO()):
+                return {"mat": np.asarray(c.as_matrix(fields).toarray())}
+        except Exception as e:
+            return {"raised": c04.kind_of(e), "msg": f"{type(e).__name__}: {e}"[:120]}
+    out["c"] = mat(circ)
+    try:
+        ci = circ.inverse()
+    except Exception as e:
+        out["ci"] = {"raised": c04.kind_of(e), "msg": f"inverse(): {type(e).__name__}: {e}"[:120]}
+        out["has_ctrl"] = case.get("barrier_at") is not None
+        return out
+    out["ci"] = mat(ci)
+    out["len"] = len(ci.gates)
+    out["has_ctrl"] = case.get("barrier_at") is not None
+    # object level: k-th gate of the inverse circuit acts on the particles of the (len-1-k)-th gate, same order (= same roles)
+    out["particles_ok"] = [pid(g) for g in ci.gates] == [pid(g) for g in reversed(circ.gates)]
+    out["_alias"] = any(a is b for a in ci.gates for b in circ.gates)
+    return out
+
+
+def _circuit_req(case, o):
+    if "_gates" not in o or o.get("has_ctrl"):
+        return {"op": "wire", "fields": [], "particle": [0, 0]}
+    defs = {fid: (ns, ld) for fid, ns, ld in case["field_defs"]}
+    return {"op": "circuit.inverse", "fields": [[fid, defs[fid][0], defs[fid][1]] for fid in case["order"]],
+            "gates": o["_gates"], "round_bits": ROUND_BITS}
+
+
+def _mm(mj):
+    sc = float(2 ** ROUND_BITS)
+    return np.array([[complex(int(z[0]) / sc, int(z[1]) / sc) for z in row] for row in mj])
+
+
+def _close(a, b, tol=1e-9):
+    a, b = np.asarray(a), np.asarray(b)
+    return a.shape == b.shape and bool(np.all(np.isfinite(a))) and float(np.max(np.abs(a - b), initial=0.0)) <= tol * (1 + float(np.max(np.abs(b), initial=0.0)))
+
+
+def _circuit_compare(case, o, m):
+    if "harness_exception" in o:
+        return "harness exception: " + o["harness_exception"] + o.get("tb", "")[-300:]
+    if o.get("has_ctrl"):
+        return None     # control instructions have no inverse(): the code raises, nothing to compare
+    for k in ("c", "ci"):
+        a, b = o[k], m[k]
+        if ("raised" in a) != ("raised" in b) or a.get("raised") != b.get("raised"):
+            return f"{k}: impl {a.get('raised', 'matrix')} {a.get('msg', '')} != model {b.get('raised', 'matrix')}"
+        if "mat" in a and not _close(a["mat"], _mm(b["mat"])):
+            return f"{k}: as_matrix of {'the inverse circuit' if k == 'ci' else 'the circuit'} differs from the model (reversed list of the gates' inverses)"
+    if o.get("len") != m.get("len"):
+        return f"length of the inverse circuit: impl {o.get('len')} != model {m.get('len')}"
+    return None
+
+
+def _circuit_oracle(case, o):
+    if "harness_exception" in o or o.get("has_ctrl"):
+        return []
+    bad = []
+    if "mat" in o["c"]:
+        if "mat" not in o["ci"]:
+            bad.append(("C03:circuit-inverse:raised", f"C.inverse() of a valid {len(case['gates'])}-gate circuit failed: {o['ci'].get('msg')}"))
+        else:
+            d = len(o["c"]["mat"])
+            if not _close(o["ci"]["mat"] @ o["c"]["mat"], np.identity(d)):
+                bad.append(("C03:circuit-inverse:not-identity", f"C.inverse().as_matrix(fields) @ C.as_matrix(fields) != 1 for a {len(case['gates'])}-gate circuit on {d.bit_length() - 1} wires"))
+    if o.get("particles_ok") is False:
+        bad.append(("C03:circuit-inverse:particles", "gates of C.inverse() do not act on the particles of the reversed gates of C"))
+    return bad
+
+
 def run(rep, tier, rng, drv):
     run_gate_check(rep, drv, tier, rng, oracle_c03, ("mat", "inv", "wires"), "gate.all")
+    # stage 2: whole circuits through the circuit driver
+    from common import run_correspondence, lake_build, Driver
+    from props import c04
+    c04.setup()
+    cdrv = None
+    ok, log = lake_build(["drv_circuit"])
+    if ok:
+        cdrv = Driver("drv_circuit")
+    else:
+        rep.tie_broken("drv_circuit", "correspondence", "circuit model driver does not build: " + log[-400:])
+
+    def counted():
+        for c in _circuit_cases(tier, rng):
+            rep.count("circuits")
+            rep.count("circuit-len:%d" % len(c["gates"]))
+            yield c
+    run_correspondence(rep, cdrv, counted(), _circuit_impl, _circuit_req, _circuit_compare, _circuit_oracle, "circuit.inverse",
+                       batch=60, req_uses_output=True)
